@@ -48,13 +48,42 @@ def case_strategy(opts=None, max_ops=6):
         return {
             "kind": "program",
             "prog": prog,
-            "requested": [n - 1] if draw(st.booleans()) else sorted(set(draw(st.lists(st.integers(0, n - 1), min_size=1, max_size=3, unique=True)) + ([n - 1] if draw(st.booleans()) else []))),
+            "requested": _draw_requested(draw, st, prog, n),
             "optimizer": o,
             "perm_seed": draw(st.integers(0, 10**6)),
             "executor": draw(st.sampled_from(["schedule", "schedule", "schedule", "single-threaded", "threads"])),
         }
 
     return cases()
+
+
+def ancestors(prog, i):
+    nin = len(prog["inputs"])
+    out, stack = set(), [i]
+    while stack:
+        j = stack.pop()
+        if j >= nin:
+            for a in prog["nodes"][j - nin]["args"]:
+                if a not in out:
+                    out.add(a)
+                    stack.append(a)
+    return out
+
+
+def _draw_requested(draw, st, prog, n):
+    """last node only / last node plus some of its ancestors (requested intermediates that feed other requested arrays:
+    the case the optimizer's requested-array guard exists for) / arbitrary subset."""
+    mode = draw(st.sampled_from(["last", "last+anc", "last+anc", "subset"]))
+    last = n - 1
+    if mode == "last":
+        return [last]
+    if mode == "last+anc":
+        anc = sorted(a for a in ancestors(prog, last) if a >= len(prog["inputs"]) and prog["nodes"][a - len(prog["inputs"])]["op"] != "pick" or a < len(prog["inputs"]))
+        if anc:
+            k = draw(st.lists(st.sampled_from(anc), min_size=1, max_size=2, unique=True))
+            return sorted(set(k) | {last})
+        return [last]
+    return sorted(set(draw(st.lists(st.integers(0, n - 1), min_size=1, max_size=3, unique=True))))
 
 
 def make_optimizer(o, unopt_dag):
@@ -119,6 +148,8 @@ def check_case(case) -> Outcome:
         try:
             ref = cubed.compute(*outs, executor=H.make_executor("single-threaded"), optimize_graph=False)
             ref = [np.asarray(r) for r in ref]
+            # the optimized run must materialize everything itself: empty the intermediate store
+            spec.intermediate_store._store_dict.clear()
         except Exception as e:
             labels.add(f"unoptimized-run-failed:{type(e).__name__}(C17)")
             return Outcome(labels=tuple(labels))
